@@ -491,6 +491,8 @@ pub fn write_jv(v: &RVal, ch: &mut Ch) -> JV {
         RVal::Uri(s) => JV::Obj(permute(vec![kind("uri"), ("val".into(), JV::Str(s.clone()))], ch)),
         RVal::Date(y, m, d) => JV::Obj(permute(vec![kind("date"), ("val".into(), JV::Str(format!("{y:04}-{m:02}-{d:02}")))], ch)),
         RVal::Time(h, m, s, n) => {
+            let (s, n) = if *n >= 1_000_000_000 { (*s + 1, *n - 1_000_000_000) } else { (*s, *n) };
+            let n = &n;
             let mut t = format!("{h:02}:{m:02}:{s:02}");
             if *n != 0 {
                 let mut digits = format!("{n:09}");
@@ -750,7 +752,9 @@ pub fn read_jv(j: &JV) -> Result<RVal, String> {
                             n *= 10;
                         }
                     }
-                    RVal::Time(p[0].parse().map_err(|_| "h")?, p[1].parse().map_err(|_| "m")?, p[2].parse().map_err(|_| "s")?, n)
+                    let sec: u32 = p[2].parse().map_err(|_| "s")?;
+                    let (sec, n) = if sec == 60 { (59, n + 1_000_000_000) } else { (sec, n) };
+                    RVal::Time(p[0].parse().map_err(|_| "h")?, p[1].parse().map_err(|_| "m")?, sec, n)
                 }
                 "dateTime" => {
                     only(o, &["_kind", "val", "tz"])?;
